@@ -184,3 +184,12 @@ func (rw *RemoteWrapper) Exists(ctx context.Context, path string, key string) (b
 	// Check if the file exists in the remote cache
 	return rw.remote.Exists(ctx, path, key)
 }
+
+// ExistsInAllTiers checks if a file exists in both the local file system cache and the remote cache.
+func (rw *RemoteWrapper) ExistsInAllTiers(ctx context.Context, path string, key string) (bool, error) {
+	localExists, err := rw.fs.Exists(ctx, path, key)
+	if err != nil || !localExists {
+		return false, err
+	}
+	return rw.remote.Exists(ctx, path, key)
+}
